@@ -285,6 +285,7 @@ def run_check(driver, tier, seed, shard_timeout=None):
     merged = {'counters': Counter(), 'samples': [], 'violations': {}, 'distinct': set(),
               'classes': set(), 'notes': [], 'inconclusive': [], 'evaluations': 0,
               'shards': len(specs), 'shards_ok': 0}
+    merged['shard_walls'] = sorted(((round(r.get('_wall', 0), 1), r['_idx']) for r in results), reverse=True)[:5]
     for r in results:
         if r['_status'] != 'ok':
             merged['inconclusive'].append('shard %d %s %s' % (
@@ -381,6 +382,7 @@ def judge(driver, tier, seed, merged, wall):
         'classes_seen': len(merged['classes']),
         'counters': {k: merged['counters'][k] for k in sorted(merged['counters'])},
         'shards': merged['shards'],
+        'slowest_shards_s': merged.get('shard_walls', []),
         'shards_ok': merged['shards_ok'],
         'known_findings_seen': sorted(seen_f),
         'new_violation_signatures': [v['key'] for v, _ in new],
@@ -456,6 +458,8 @@ def worker_main(argv):
         spec = json.load(f)
     sys.path.insert(0, REPO)
     import importlib
+    import warnings
+    warnings.simplefilter('ignore')      # hszinc warns once per unknown version string; pyparsing deprecations
     driver = importlib.import_module('vf.props.' + prop.lower())
     ctx = Ctx(prop, tier, seed, idx)
     real_stdout = sys.stdout
